@@ -62,10 +62,10 @@ func (*baseExecutor) GetScanSlice(columnNames []string, tableMeta *types.TableMe
 			columnMeta, _ = tableMeta.GetColumnMeta(columnName)
 		)
 		switch strings.ToUpper(columnMeta.DatabaseTypeString) {
-		case "VARCHAR", "NVARCHAR", "VARCHAR2", "CHAR", "TEXT", "JSON", "TINYTEXT":
+		case "VARCHAR", "NVARCHAR", "VARCHAR2", "CHAR", "TEXT", "JSON", "TINYTEXT", "MEDIUMTEXT", "LONGTEXT", "ENUM", "SET":
 			var scanVal sql.NullString
 			scanSlice = append(scanSlice, &scanVal)
-		case "BIT", "INT", "LONGBLOB", "SMALLINT", "TINYINT", "BIGINT", "MEDIUMINT":
+		case "INT", "SMALLINT", "TINYINT", "BIGINT", "MEDIUMINT":
 			if columnMeta.IsNullable == 0 {
 				scanVal := int64(0)
 				scanSlice = append(scanSlice, &scanVal)
